@@ -22,6 +22,12 @@ CHECKS = {
     "C20": (MC, "explicit-state BFS over products/quotients of atomic units; every rendered string parsed back with an independent grammar",
             "Every transition of the depth-3 (quick) / depth-4 (thorough) graph over 10 atomic (category, unit) atoms renders unit, category, quantity-type and unit-name strings that are parsed by an independent implementation of the table's symbol grammar and compared with the composing map; all 6322 (unit, category) pairs of the table are checked as simple quantities incl. repr/str of Scalar and Array.",
             "atomic composing symbols only (as the property states); depth bound"),
+    "C14": (MC, "explicit-state BFS over registration calls on the real UnitDatabase in lock-step with a reference registry; invariants in every state; atomicity of every rejected call",
+            "All histories up to depth 5 (quick) / 6 (thorough) over 29/34 registration calls (valid, duplicate, invalid, overriding, inheriting, legacy-spelled, before-base) are executed on a fresh database; acceptance, unit order and category records are compared with the registry model after every accepted call, invariants I1-I4 (unique symbols, identity base unit, category well-formedness, every unit/category builds a valid Scalar) are evaluated in every state and every rejected call must leave the public fingerprint unchanged. The same invariants run over every unit and category of posc, posc_nocat and simple.",
+            "depth bound (no fixpoint: the registry only grows); implementation-defined argument validation is judged for atomicity only"),
+    "C17": (MC, "explicit-state BFS to a fixpoint on the real UnitSystemManager in lock-step with a reference model that also predicts the callback log",
+            "All reachable states of a fresh manager under 37 operations (add with 5 mapping forms incl. one dict shared between calls, remove, select, template, SetDefaultUnit / RemoveCategory on every registered system, GetNewId, ConvertToCurrent) over ids {a, b, 'system 1'} are explored to a fixpoint (15 452 states); accept/reject, ordered ids, mappings, current, template, the callback log delta and query results are compared with the model at every transition; rejected calls must change nothing. thorough adds a third id and more unit choices to depth 6.",
+            "SetCurrent only receives registered systems or None; one on_current per selection event"),
 }
 
 NOT_YET = {}
